@@ -846,6 +846,29 @@ def p_c11(cx):
         return fn
     cx.case('deep-rb-200', 'punctuation_delete', punct(deep_rb()))
 
+    def terminal_file(spec, op, pos):
+        def fn():
+            path = write_file('large-terms-%s-%d.txt' % (op, pos), '%d %d NEW XX\n' % (spec.sid, pos))
+            t = ibuild(spec)
+            try:
+                r = getattr(transform, op)(t, terminalfile=path, quiet=True)
+            finally:
+                os.unlink(path)
+            words = [tk[0] for tk in spec.toks]
+            if op == 'insert_terminals':
+                words.insert(pos - 1, 'NEW')
+            else:
+                words[pos - 1] = 'NEW'
+            probs = monitor(r, len(words))
+            if probs:
+                return '; '.join(probs)
+            got = [w for (_, w, _) in token_seq(r)]
+            return '' if got == words else 'the words after %s at position %d are not the sentence with NEW at that position' % (op, pos)
+        return fn
+    for op in ('insert_terminals', 'substitute_terminals'):
+        for pos in (1, 258, 290, 300):
+            cx.case('long-cont', '%s at position %d' % (op, pos), terminal_file(long_cont(), op, pos))
+
 
 def p_c12(cx):
     for spec, exp in ((long_gap(), long_gap_attached()), (deep_rb(), deep_rb_attached()), (long_cont(), long_cont()),
@@ -870,6 +893,14 @@ def p_c13(cx):
     cx.case('deep-rb-200', 'punctuation_root moves the comma of an inner node to the root', _program(deep_rb_attached(), [('punctuation_root', {})],
             lambda t, labs: sig_diff(deep_rb().sig(), tree_sig(t))))
     cx.case('long-cont', 'punctuation_root without punctuation', root(long_cont()))
+    q = long_cont().copy('long-cont-quotes')
+    for i in (3, 258, 291, 300):
+        w, p, e, par = q.toks[i - 1]
+        q.toks[i - 1] = ('"', '$(', e, par)
+    others = [x for x in q.sig()[1] if x[1] != '"']
+    cx.case(q.name, 'root_attach, punctuation_symetrify: only quotes may move (quotes at 3, 258, 291 and at the end of the sentence)',
+            _program(q, [('root_attach', {}), ('punctuation_symetrify', {})],
+                     lambda t, labs: '' if [x for x in tree_sig(t)[1] if x[1] != '"'] == others else 'tokens other than the quotes changed their place'))
     sp = long_cont().copy('long-cont-commas')
     for i in (258, 259, 280):
         w, p, e, par = sp.toks[i - 1]
